@@ -822,7 +822,7 @@ def check(ctx):
     ctx.explanation = EXPLANATION
     ctx.trusted = ["core: slice::Iter/IterMut, Enumerate, Zip, Map yield in ascending index order; for_each/fold/from_iter consume every item once, in order",
                    "parametricity of the generic bodies (rustc type checking): results can only come from f and go into the output"]
-    ctx.assumptions = ["C07.Z: from_iter stores the i-th produced item in slot i"]
+    ctx.assumptions = []
     cfgs = ["F0", "F1", "F1N"] if ctx.tier == "quick" else ["F0", "F1", "F1N", "F2", "F0N", "F2N"]
     ctx.need(*cfgs)
     A1, A2 = ("V", "arg", 1), ("V", "arg", 2)
@@ -853,3 +853,13 @@ def check(ctx):
         r = check_receivers(ctx, cfg)
         ctx.floor("C08.R", "receiver-form obligations (%s)" % cfg, r, 8)
         check_default_clone(ctx, cfg)
+        # every map / zip / clone above ends in from_iter: that it turns a source of exactly N items into the array of those items, in order,
+        # for every N (0 included) is C07's statement - its rules are run here instead of being assumed
+        from . import c07 as _c07
+        _c07.check_try(ctx, cfg, _c07.K_TRY, False)
+        for k_ in _c07.K_EXT:
+            _c07.check_extend(ctx, cfg, k_)
+        _c07.check_from_iter(ctx, cfg, _c07.K_FROM, _c07.K_TRY)
+        if not cfg.startswith("F0"):
+            _c07.check_try(ctx, cfg, _c07.K_TRYB, True)
+            _c07.check_from_iter(ctx, cfg, _c07.K_FROMB, _c07.K_TRYB)
